@@ -6,5 +6,8 @@ KERNELS = {
         dict(name="node_queue_ops", file=ASYNC, func="_AsyncNodeWrapper", loc=("queue_ops", ["push_scheduled_ts", "push_phase_shift", "push_step"]), props=["C02"]),
         dict(name="conn_queue_ops", file=ASYNC, func="_AsyncConnectionWrapper",
              loc=("queue_ops", ["push_expected_nonblocking", "push_expected_blocking", "push_ts_max", "push_ts_input", "push_input", "push_zip", "push_selection"]), props=["C02"]),
+        # every wrapper runs its tasks on one worker thread: handler bodies of one wrapper never overlap and run in submission order
+        dict(name="node_single_worker", file=ASYNC, func="_AsyncNodeWrapper.__init__", loc=("stmt_order", ["self._executor = ThreadPoolExecutor(max_workers=1"]), props=["C02", "C05"]),
+        dict(name="conn_single_worker", file=ASYNC, func="_AsyncConnectionWrapper.__init__", loc=("stmt_order", ["self._executor = ThreadPoolExecutor(max_workers=1"]), props=["C02", "C05"]),
     ],
 }
